@@ -544,6 +544,7 @@ type c11Stmt struct {
 	SrcAlias string
 	SrcAs    bool
 	Join     *c11Join
+	Join2    *c11Join // optional second JOIN clause
 	MR       *c11MR
 	Where    *c11Pred
 	Group    []c11Col
@@ -589,7 +590,10 @@ func (s *c11Stmt) toks() []c11Tok {
 		}
 		t = append(t, id(s.SrcAlias))
 	}
-	if j := s.Join; j != nil {
+	for _, j := range []*c11Join{s.Join, s.Join2} {
+		if j == nil {
+			continue
+		}
 		t = append(t, kw(j.Written...)...)
 		t = append(t, id(j.Table))
 		if j.Alias != "" {
@@ -881,7 +885,8 @@ func c11GenDirect(r *rand.Rand) *c11Stmt {
 				l = pick(r, c11HostileLits)
 			}
 			if r.Intn(10) == 0 {
-				l = pick(r, []string{"it's LIMIT 2", "say \"ORDER BY x\""})
+				// also: the OTHER quote character followed by an opening parenthesis inside the literal
+				l = pick(r, []string{"it's LIMIT 2", "say \"ORDER BY x\"", "it's (ok)", "\"(none)\"", "5\"(LIMIT 3 FROM x)", "it's(ok)", "o'sum(x)"})
 			}
 			it.Kind, it.Lit, it.Alias = "lit", l, nm.alias()
 			it.Toks = []c11Tok{str(c11Quote(l, c11PickQuote(r, l)))}
@@ -1154,6 +1159,28 @@ func c11GenJoin(r *rand.Rand) *c11Stmt {
 	}
 	j.SPfx, j.TPfx = sp, tp
 	s.Join = j
+	if r.Intn(3) == 0 {
+		// a second JOIN clause with its own kind; its table matches every row and none of its columns is
+		// selected, so it changes the configuration only
+		j2 := &c11Join{Table: "zones", On: [][2]string{{"k", "zone"}}, SPfx: sp}
+		if r.Intn(2) == 0 {
+			j2.Alias, j2.AsKw = "z", r.Intn(2) == 0
+			j2.TPfx = "z."
+		} else {
+			j2.TPfx = "zones."
+		}
+		switch r.Intn(4) {
+		case 0:
+			j2.Type, j2.Written = "INNER", []string{"JOIN"}
+		case 1:
+			j2.Type, j2.Written = "INNER", []string{"INNER", "JOIN"}
+		case 2:
+			j2.Type, j2.Written = "LEFT", []string{"LEFT", "OUTER", "JOIN"}
+		default:
+			j2.Type, j2.Written = "LEFT", []string{"LEFT", "JOIN"}
+		}
+		s.Join2 = j2
+	}
 	for _, c := range []string{"a", "v", "order_id", "dev"}[:1+r.Intn(4)] {
 		it := &c11Item{Kind: "col", Col: c11Col{Name: sp + c, Path: c}, Toks: []c11Tok{id(sp + c)}}
 		if r.Intn(2) == 0 {
